@@ -155,7 +155,9 @@ const (
 )
 
 func doHistory(c *hx.Ctx, in Input, kind string, nperm int) {
-	ws, hash, perStep, ok := checkHistory(c, in, kind == caseSteps)
+	store := newStore(in.Base)
+	defer store.Close()
+	ws, hash, perStep, ok := checkHistory(c, store, in, kind == caseSteps)
 	if ws == nil && hash == nil {
 		return
 	}
@@ -168,7 +170,7 @@ func doHistory(c *hx.Ctx, in Input, kind string, nperm int) {
 			if !sameLastWrite(v.Ops, v.Variant) {
 				panic("c03 driver: variant generator broke the last-write map: " + v.Kind)
 			}
-			checkPair(c, v, ws, hash)
+			checkPair(c, store, v, ws, hash)
 		}
 	}
 	c.Sample(map[string]interface{}{"kind": kind, "ops": in.Ops, "write_set": showKvs(ws), "change_hash": hx.Hex(hash)})
@@ -190,13 +192,15 @@ func doHistory(c *hx.Ctx, in Input, kind string, nperm int) {
 
 // replayInput re-runs a recorded failing input.
 func replayInput(c *hx.Ctx, in Input) {
-	ws, hash, _, ok := checkHistory(c, in, false)
+	store := newStore(in.Base)
+	defer store.Close()
+	ws, hash, _, ok := checkHistory(c, store, in, false)
 	if ok && in.Variant != nil {
 		if !sameLastWrite(in.Ops, in.Variant) {
 			c.Note("replay: the variant does not have the same last-write map; not compared")
 			return
 		}
-		checkPair(c, in, ws, hash)
+		checkPair(c, store, in, ws, hash)
 	}
 }
 
